@@ -394,7 +394,7 @@ class Gen:
                                       after=lf["replace"] + "  +  " + lf["sig"],
                                       trusted="closure conversion: the closure body becomes the body of a method whose parameters are the closure's parameters and its captured variables; the index method is an opaque shim that may run it"))
             body = body[:hits[0].start()] + lf["replace"] + body[cl + 1:]
-        body = self._inline_helpers(key, body, container, s.path, body_line)
+        body = self._inline_helpers(key, body, container, s.path, body_line, sig)
         self._emit_fn_text(key, sig, body, sig_line, body_line, s.path, indent, rl)
         for lf, cbody, cline in lifted:
             lkey = (container + "::" if container else "") + lf["name"]
@@ -417,10 +417,11 @@ class Gen:
                     names.update(it[3])
             for lfs in self.unit.get("lifts", {}).values():
                 names.update(lf["name"] for lf in lfs)
+            names.update(getattr(self, "auto_pulled", []))
             self._known = names
         return self._known
 
-    def _inline_helpers(self, key, body, container, path, body_line):
+    def _inline_helpers(self, key, body, container, path, body_line, caller_sig=""):
         """Rule R-inline: a call `self.h(args)` / `Self::h(args)` to a method the unit does not know (an edit
         extracted a helper) is replaced by the helper's body when that body is ONE expression and the
         arguments are plain places (identifiers, field paths, & of those): beta-reduction, nothing trusted.
@@ -454,8 +455,27 @@ class Gen:
                 hsig = src.text[f["start"]:f["body_open"]]
                 hbody = src.text[f["body_open"] + 1:f["end"] - 1].strip()
                 hm = mask(hbody)
-                if re.search(r"\breturn\b|\?|\bloop\b|\bwhile\b|\bfor\b|\bunsafe\b", hm):
+                if re.search(r"\breturn\b|\bloop\b|\bwhile\b|\bfor\b|\bunsafe\b", hm):
                     continue
+                qmode = None
+                if "?" in hm:
+                    # a helper that propagates errors with `?` can still be beta-reduced where its result is itself
+                    # propagated: `h(..)?` (the block's `?` leaves the caller exactly as the call's `?` would) or
+                    # `return h(..);` - provided helper and caller both return the crate's Result
+                    op_ = mm.end() - 1
+                    cl_ = match_close(mb, op_)
+                    after_ = mb[cl_ + 1:].lstrip()
+                    before_ = mb[:mm.start()].rstrip()
+                    res_h = re.search(r"->\s*Result\s*<", mask(hsig)) is not None
+                    res_c = re.search(r"->\s*(\(\s*\w+\s*:\s*)?Result\s*<", mask(caller_sig)) is not None
+                    if not (res_h and res_c):
+                        continue
+                    if after_.startswith("?"):
+                        qmode = "try"
+                    elif before_.endswith("return") and after_.startswith(";"):
+                        qmode = "return"
+                    else:
+                        continue
                 is_block = bool(re.search(r";|\blet\b", hm))
                 pm = re.search(r"\bfn\s+%s\s*(<[^>]*>)?\s*\(" % re.escape(name), mask(hsig))
                 if not pm:
@@ -494,14 +514,30 @@ class Gen:
                     new = re.sub(r"(?<![\w.])self\b", recv, new)
                 for pn, a_ in zip(pnames, args):
                     new = re.sub(r"(?<![\w.])%s\b" % re.escape(pn), a_ if re.fullmatch(r"\w+", a_) else "(" + a_ + ")", new)
-                hit = (mm.start(), cl + 1, ("({ " + new + " })") if is_block else ("(" + new + ")"), name, src.path)
+                end_ = cl + 1
+                if qmode == "try":
+                    # `h(..)?`: the helper's final `Ok(e)` becomes `e`; the `?` of the call is consumed
+                    tm = re.search(r"(^|[;}])\s*Ok\s*\(", mask(new))
+                    tails = [t_ for t_ in re.finditer(r"(?:^|[;}])\s*(Ok\s*\()", mask(new))]
+                    if not tails:
+                        continue
+                    t_ = tails[-1]
+                    o_ = t_.end(1) - 1
+                    c_ = match_close(mask(new), o_)
+                    if mask(new)[c_ + 1:].strip() != "":
+                        continue
+                    inner_ = new[o_ + 1:c_].strip() or "()"
+                    new = new[:t_.start(1)] + inner_
+                    end_ = cl + 1 + (len(mb[cl + 1:]) - len(mb[cl + 1:].lstrip())) + 1
+                    is_block = True
+                hit = (mm.start(), end_, ("({ " + new + " })") if is_block else ("(" + new + ")"), name, src.path)
                 break
             if not hit:
                 return body
             a, b, new, name, hpath = hit
             self.fidelity.append(dict(rule="R-inline", file=path, line=body_line + body.count("\n", 0, a), item=key,
                                       before=re.sub(r"\s+", " ", body[a:b]), after=re.sub(r"\s+", " ", new),
-                                      trusted="nothing (beta-reduction of the loop-free, return-free helper %s from %s, which the unit does not list)" % (name, hpath)))
+                                      trusted="nothing (beta-reduction of the loop-free, return-free helper %s from %s, which the unit does not list; a helper using `?` is reduced only where its own result is propagated by `?` or `return`)" % (name, hpath)))
             body = body[:a] + new + body[b:]
         return body
 
@@ -823,6 +859,7 @@ class Gen:
         missing = set(self.contracts) - self.used_contracts
         if missing:
             raise Undecided("contracts for functions that were not extracted: %s" % sorted(missing))
+        self._auto_fns()
         self._auto_consts()
         for sp in u.get("spec", []):
             self.emit("// ---- spec: %s" % sp)
@@ -840,11 +877,67 @@ class Gen:
         self._scan_assumptions()
         meta = dict(unit=self.unit_name, file=out, functions=self.functions, clauses=self.clauses,
                     fidelity=self.fidelity, dropped=self.dropped, sha256=self.sha,
-                    assumptions=self.assumption_scan, requires_lines=self.requires_lines)
+                    assumptions=self.assumption_scan, requires_lines=self.requires_lines, auto_pulled=getattr(self, "auto_pulled", []))
         with open(os.path.join(self.outdir, self.unit_name + ".fidelity.json"), "w") as f:
             json.dump(meta, f, indent=1)
         self.meta = meta
         return out
+
+    def _auto_fns(self):
+        """Helpers the extracted code calls but the unit neither lists nor shims (an edit extracted a helper that
+        the inliner cannot beta-reduce: it has `return`, `?` or a loop): pulled in verbatim from the unit's sources,
+        WITHOUT a contract. Verus then checks them for safety and checks their callers against an empty contract;
+        a proof failure in a function that calls such a helper is reported as undecided, never as a violation
+        (lib/verus_route.py), while failures elsewhere - e.g. a postcondition of a function the helper's logic was
+        moved OUT of - are decided as usual."""
+        self.auto_pulled = []
+        if not self.unit.get("auto_fns", True):
+            return
+        impls = [(it[1], it[2], (it[4] if len(it) > 4 else {})) for it in self.unit["items"] if it[0] == "impl"]
+        fn_aliases = [it[1] for it in self.unit["items"] if it[0] in ("fn", "impl")]
+        for _ in range(4):
+            known = self._known_methods() | set(self.auto_pulled)
+            text = "\n".join(ln for ln, o in zip(self.lines, self.linemap) if o and o.get("file"))
+            mk = mask(text)
+            cands = []
+            for mm in re.finditer(r"(?<![\w.:!])(self\s*\.\s*|Self\s*::\s*|)(\w+)\s*\(", mk):
+                name = mm.group(2)
+                if name in known or name in _RUST_WORDS or name[0].isupper() or (name, bool(mm.group(1))) in cands:
+                    continue
+                cands.append((name, bool(mm.group(1))))
+            added = False
+            for name, is_method in cands:
+                if is_method:
+                    for alias, cont, opts in impls:
+                        try:
+                            self.src(alias).find_fn(name, cont, opts.get("trait"))
+                        except (ParseError, Undecided):
+                            continue
+                        hdr = opts.get("header") or ("impl %s {" % cont)
+                        self.emit(hdr)
+                        self.emit_fn(alias, name, container=cont, trait=opts.get("trait"), indent="    ", rules=opts.get("rules"))
+                        self.emit("}")
+                        self.auto_pulled.append(name)
+                        self._known = None
+                        self.fidelity.append(dict(rule="auto-fn", file=self.src(alias).path, line=0, item=cont + "::" + name, before="(not listed in the unit)",
+                                                  after="method pulled in verbatim WITHOUT a contract because the extracted code calls it", trusted="nothing (callers' failures become undecided)"))
+                        added = True
+                        break
+                else:
+                    for alias in dict.fromkeys(fn_aliases):
+                        try:
+                            self.src(alias).find_fn(name, None, None)
+                        except (ParseError, Undecided):
+                            continue
+                        self.emit_fn(alias, name)
+                        self.auto_pulled.append(name)
+                        self._known = None
+                        self.fidelity.append(dict(rule="auto-fn", file=self.src(alias).path, line=0, item=name, before="(not listed in the unit)",
+                                                  after="function pulled in verbatim WITHOUT a contract because the extracted code calls it", trusted="nothing (callers' failures become undecided)"))
+                        added = True
+                        break
+            if not added:
+                return
 
     def _auto_consts(self):
         """Constants the extracted code names but the unit does not list (an edit started using
